@@ -140,6 +140,9 @@ F = [
   "Exp reported Overflow for arguments a hair above a multiple of 23 (the working precision was derived from |x| rounded to a float64): Exp(3611.0000000000000000001) P=41 Emax=100000 returned Infinity",
   {"C12": [ar("exp", ctx(41, 100000, -100000, "down"), dec("36110000000000000000001", -19)), ar("exp", ctx(41, 100000, -100000, "down"), dec("98900000000000004", -14)),
            ar("exp", ctx(5, 1000, -1000, "half_even"), dec("11500000000000000000001", -20))]}),
+ ("D49", "Exp keeps track of which side of a power of ten a result came from",
+  "Exp returned exactly 1 for arguments below a unit of the working precision, losing the side: Exp(-0.09) at Precision 1, MinExponent 0, RoundDown returned 1 with Inexact|Rounded where the true value 0.914 rounds down to 0.9 and is subnormal (found when C12 began to derive Subnormal from the enclosure)",
+  {"C12": [ar("exp", ctx(1, 1, 0, "down"), dec(9, -2, True)), ar("exp", ctx(1, 0, 0, "down"), dec(23025851, -9, True)), ar("exp", ctx(1, 0, -100000, "half_up"), dec("230258532325256", -9, True))]}),
  ("D48", "Exp estimates its number of series terms without leaving the float64 range",
   "Exp returned exactly 1 for arguments below about 1E-308 at precisions that can still represent 1+x (the series' term-count estimate divides by the argument converted to float64, which underflows to 0): Exp(1E-330) at Precision 400, Exp(9E-307) at Precision 512 (remarked by a seeding sub-agent; C12's high-precision class extended to tiny arguments)",
   {"C12": [ar("exp", ctx(512, 10000, -10000, "down"), dec(9, -307)), ar("exp", ctx(400, 10000, -10000, "half_even"), dec(1, -330))]}),
